@@ -82,12 +82,16 @@ struct Walker : dv::Typed<int, Walker> {
 			using CIt = typename multi::subarray<int, D, int*>::const_iterator;
 			idx_t const size = w.size();
 			std::cout << "F " << id << " k=a size=" << size << " dist=" << (w.end() - w.begin()) << '\n';
+			// begin()/end() have & and && overloads: taken from the named view or from an rvalue of it, by the shape
+			bool const rv = ((size + D) % 2) == 1;
+			It const wb = rv ? std::move(w).begin() : w.begin();
+			It const we = rv ? std::move(w).end() : w.end();
 			if constexpr(D == 1) {
 				auto f = w.dropped(size > 0 ? 1 : 0);
-				walk<It, CIt>(w.begin(), w.end(), size, [](auto const& it) { return &*it; }, [](It const& it, idx_t k) { return &it[k]; }, f.begin());
+				walk<It, CIt>(wb, we, size, [](auto const& it) { return &*it; }, [](It const& it, idx_t k) { return &it[k]; }, f.begin());
 			} else {
 				auto f = w.rotated();  // same type, other extents
-				walk<It, CIt>(w.begin(), w.end(), size, [](auto const& it) { return (*it).base(); }, [](It const& it, idx_t k) { return it[k].base(); }, f.begin());
+				walk<It, CIt>(wb, we, size, [](auto const& it) { return (*it).base(); }, [](It const& it, idx_t k) { return it[k].base(); }, f.begin());
 			}
 			// independent of iterators: the sub-view / element at the p-th valid index
 			auto const ext = w.extension();
